@@ -1125,7 +1125,7 @@ func ruleAbortFirst(p *Program, r *Result) {
 			case *ssa.Call:
 				if f := x.Common().StaticCallee(); f != nil && f.Name() == "Has" && hasIsMaskTest(f) && len(x.Common().Args) == 2 {
 					if c, okc := constInt(x.Common().Args[1]); okc && c == abortC {
-						a0 := x.Common().Args[0]
+						a0 := flagsOperand(x.Common().Args[0])
 						if fa, ok := a0.(*ssa.FieldAddr); ok {
 							if al, ok := fa.X.(*ssa.Alloc); ok && conts[al] != nil && fieldName(fa) == "Flags" {
 								isTest = true
